@@ -210,7 +210,7 @@ def check(run: Run) -> None:
     fi_ = tr.methods.get("find_identifier")
     if tt is None or fi_ is None:
         raise AnalysisError("anchor vanished: _token_runner.tokens_till / find_identifier")
-    _check_brackets(run, tt)
+    _check_brackets(run, _view(m, tt))
     # ---------------- R6
     stops = [n for n in own_nodes(fi_) if isinstance(n, (ast.Break, ast.Return)) and not (isinstance(n, ast.Return) and _returns_found(n))]
     ffa = TermCtx(m, max_depth=1).analysis(fi_)
@@ -512,6 +512,8 @@ def _check_brackets(run: Run, tt) -> None:
                 continue
             (inc if isinstance(n.op, ast.Add) else dec)[cond] = n.target.id
     if not inc and not dec:
+        inc, dec = _delta_counters(tt)
+    if not inc and not dec:
         inc, dec = _table_counters(run, tt)
     run.floor("C03.R4", len(inc), 3, "bracket-open counters")
     for o, c in PAIRS.items():
@@ -529,6 +531,10 @@ def _check_brackets(run: Run, tt) -> None:
         fx = Facts(fa, r)
         zeros = set()
         for a, pol in fx.atoms:
+            if pol and isinstance(a, ast.Compare) and len(a.ops) > 1 and all(isinstance(o_, ast.Eq) for o_ in a.ops) and any(isinstance(x_, ast.Constant) and x_.value == 0 and type(x_.value) is int for x_ in [a.left] + list(a.comparators)):
+                # a == b == c == 0: every operand equals 0
+                zeros |= {_ckey(x_) for x_ in [a.left] + list(a.comparators) if _ckey(x_) is not None}
+                continue
             if pol and isinstance(a, ast.Compare) and _ckey(a.left) is not None and isinstance(a.ops[0], ast.Eq) and isinstance(a.comparators[0], ast.Constant) and a.comparators[0].value == 0:
                 zeros.add(_ckey(a.left))
             if not pol and not isinstance(a, ast.Compare) and _ckey(a) is not None:
@@ -545,6 +551,40 @@ def _check_brackets(run: Run, tt) -> None:
             if isinstance(a, ast.Compare) and "COMMENT" in ast.unparse(a) and isinstance(a.ops[0], ast.Eq) and not pol:
                 ok_c = True
     run.check(ok_c, "C03.R4", tt, tt.node, "comment tokens are dropped", "comment tokens are not skipped: text in a comment becomes part of the recovered lambda source")
+
+
+def _delta_counters(tt):
+    """delta form: `d = 1` / `d = -1` under the governing test of a bracket text and `d = 0` everywhere else,
+    then `counter += d` once per token"""
+    inc, dec = {}, {}
+    for n in own_nodes(tt):
+        if not (isinstance(n, ast.AugAssign) and isinstance(n.op, ast.Add) and isinstance(n.target, ast.Name) and isinstance(n.value, ast.Name)):
+            continue
+        d = n.value.id
+        stores = [x for x in own_nodes(tt) if isinstance(x, ast.Name) and x.id == d and isinstance(x.ctx, ast.Store)]
+        defs = [x for x in own_nodes(tt) if isinstance(x, ast.Assign) and len(x.targets) == 1 and isinstance(x.targets[0], ast.Name) and x.targets[0].id == d]
+        if len(stores) != len(defs) or not defs:
+            continue
+        vals = []
+        for x in defs:
+            try:
+                vals.append(ast.literal_eval(x.value))
+            except Exception:
+                vals = None
+                break
+        if vals is None or any(type(v) is not int or v not in (0, 1, -1) for v in vals):
+            continue
+        if _governing_string_test(n) is not None:
+            continue
+        for x, v in zip(defs, vals):
+            if v == 0:
+                continue
+            cond = _governing_string_test(x)
+            if cond is None:
+                # a non-zero step that no bracket text governs: not this form
+                raise AnalysisError(f"C03.R4: the step {d} = {v} at line {x.lineno} is not governed by a test of the token text")
+            (inc if v == 1 else dec)[cond] = n.target.id
+    return inc, dec
 
 
 def _ckey(e):
@@ -656,8 +696,16 @@ def _governing_string_test(n: ast.AST):
     for a in ancestors(n):
         if isinstance(a, ast.If) and child in a.body:
             t = a.test
-            if isinstance(t, ast.Compare) and isinstance(t.ops[0], ast.Eq) and isinstance(t.comparators[0], ast.Constant) and isinstance(t.comparators[0].value, str) and "string" in ast.unparse(t.left):
-                return t.comparators[0].value
+            if isinstance(t, ast.Compare) and isinstance(t.ops[0], ast.Eq) and isinstance(t.comparators[0], ast.Constant) and isinstance(t.comparators[0].value, str):
+                left = t.left
+                if isinstance(left, ast.Name):
+                    # op = token.string; if op == "(": ..  - a local that names the token's text
+                    fn_ = next((x for x in ancestors(n) if isinstance(x, (ast.FunctionDef, ast.AsyncFunctionDef))), None)
+                    defs_ = [x for x in ast.walk(fn_) if isinstance(x, ast.Assign) and len(x.targets) == 1 and isinstance(x.targets[0], ast.Name) and x.targets[0].id == left.id] if fn_ is not None else []
+                    if len(defs_) == 1:
+                        left = defs_[0].value
+                if "string" in ast.unparse(left):
+                    return t.comparators[0].value
             return None
         if isinstance(a, (ast.For, ast.FunctionDef)):
             return None
